@@ -17,11 +17,11 @@ theorem kindMatch_res_iff (p : Pid) (e : HTag) (hc : e.item.c < 2 ^ 64) :
   simp [this, and_assoc]
 
 /-- what a complete signal does, in terms of `queued`: lists only shrink, the only new events are grants (aRes, SUCCESS)
-    for keys that were queued -/
+    and — from the condition signal of an observing condition — condition wake-ups (aCond, SUCCESS), for keys that were queued -/
 theorem signal_foot {w : World} (hall : AllGWF w) (g : Nat) :
     (∀ g' k, queued (signal w g) g' k → queued w g' k) ∧ (signal w g).procs = w.procs ∧ (signal w g).conds = w.conds ∧
     (∀ e ∈ (signal w g).ev.pending, e ∈ w.ev.pending ∨
-      (e.item.a = aRes ∧ e.item.c = 0 ∧ ∃ g', queued w g' e.item.b)) := by
+      ((e.item.a = aRes ∨ e.item.a = aCond) ∧ e.item.c = 0 ∧ ∃ g', queued w g' e.item.b)) := by
   have hrel := signal_rel w g hall
   refine ⟨?_, hrel.procs, hrel.conds, ?_⟩
   · intro g' k ⟨gd', hg', hk⟩
@@ -38,8 +38,9 @@ theorem signal_foot {w : World} (hall : AllGWF w) (g : Nat) :
     rw [hp] at he
     rcases List.mem_append.1 he with he | he
     · right
-      obtain ⟨g', gd, gd', hgd, _, hin, _, _, heq, _⟩ := hgr e he
-      refine ⟨by rw [heq]; rfl, by rw [heq]; rfl, g', gd, hgd, hin⟩
+      rcases hgr e he with ⟨g', gd, gd', hgd, _, hin, _, _, _, heq, _⟩ | ⟨g', gd, gd', hgd, _, hin, _, _, _, heq, _⟩
+      · exact ⟨Or.inl (by rw [heq]; rfl), by rw [heq]; rfl, g', gd, hgd, hin⟩
+      · exact ⟨Or.inr (by rw [heq]; rfl), by rw [heq]; rfl, g', gd, hgd, hin⟩
     · exact Or.inl he
 
 /-- what `guardWithdraw` does -/
@@ -48,14 +49,15 @@ theorem guardWithdraw_foot {w : World} (hall : AllGWF w) (hi : EvInv w.ev) (hcl 
     (∀ g' k, queued (guardWithdraw w g p) g' k → queued w g' k) ∧ ¬ queued (guardWithdraw w g p) g (p + 1) ∧
     (guardWithdraw w g p).procs = w.procs ∧
     (∀ e ∈ (guardWithdraw w g p).ev.pending, e ∈ w.ev.pending ∨ e.item.a = aEvent ∨
-      (e.item.a = aRes ∧ e.item.c = 0 ∧ e.item.b ≠ p + 1)) ∧
+      ((e.item.a = aRes ∨ e.item.a = aCond) ∧ e.item.c = 0 ∧ e.item.b ≠ p + 1)) ∧
     (¬ queued w g (p + 1) → ∀ e ∈ (guardWithdraw w g p).ev.pending, e.item.a = aRes → e.item.c = 0 → e.item.b ≠ p + 1) := by
   -- the part after the removal attempt has failed
   have tail : ¬ queued w g (p + 1) →
       let w1 := (cancelKindFor w p aRes (some sigSuccess)).1
       let w2 := if (cancelKindFor w p aRes (some sigSuccess)).2 > 0 then signal w1 g else w1
       (∀ g' k, queued w2 g' k → queued w g' k) ∧ w2.procs = w.procs ∧
-      (∀ e ∈ w2.ev.pending, e ∈ w.ev.pending ∨ e.item.a = aEvent ∨ (e.item.a = aRes ∧ e.item.c = 0 ∧ e.item.b ≠ p + 1)) ∧
+      (∀ e ∈ w2.ev.pending, e ∈ w.ev.pending ∨ e.item.a = aEvent ∨
+        ((e.item.a = aRes ∨ e.item.a = aCond) ∧ e.item.c = 0 ∧ e.item.b ≠ p + 1)) ∧
       (∀ e ∈ w2.ev.pending, e.item.a = aRes → e.item.c = 0 → e.item.b ≠ p + 1) := by
     intro hnqg
     obtain ⟨hrel, hgone, _, _⟩ := cancelKindFor_spec w p aRes (some sigSuccess) hi
@@ -294,13 +296,13 @@ theorem GInv.leaveGuard {w : World} (hp : GInv ex fr w) {p : Pid} {f : Frame} {g
       rcases f4 e he with h | h | ⟨h, _, _⟩
       · rw [hevA] at h; exact hnt e h hea hec hb
       · rw [hea] at h; exact absurd h (by decide)
-      · rw [hea] at h; exact absurd h (by decide)
-    · intro e he hea _
+      · rw [hea] at h; rcases h with h | h <;> exact absurd h (by decide)
+    · intro e he hea hb
       rw [hevR] at he
-      rcases f4 e he with h | h | ⟨h, _, _⟩
+      rcases f4 e he with h | h | ⟨_, _, h⟩
       · rw [hevA] at h; exact h
       · rw [hea] at h; exact absurd h (by decide)
-      · rw [hea] at h; exact absurd h (by decide)
+      · exact absurd hb h
   · have hs' : sig = sigSuccess := Classical.byContradiction hs
     rw [if_neg hs]
     obtain ⟨hq2, hq3⟩ := hq hs'
